@@ -110,12 +110,13 @@ def kernel_cases(tier, seed):
     t64 = [(0,) * 64] + [rt(64) for _ in range(6)]
     S2 = alphabet({0: 1, 1: 2, 3: 1, 8: 1})
     S8 = alphabet({0: 1, 1: 2, 5: 1, 16: 1})
-    deep4 = fixed4 + rng.sample([t for t in all4 if t not in fixed4], 3)
+    deep4 = fixed4
     return [
         dict(M=4, d=1, alpha=A4, tabs=None, steptabs=all4, bs=[1, 2], maxdraws=2),
         dict(M=4, d=1, alpha=A4, tabs=deep4, steptabs=deep4, bs=[1, 2], maxdraws=3),
-        dict(M=8, d=1, alpha=A8full, tabs=t8, steptabs=t8[1:4], bs=[1, 2], maxdraws=2),
-        dict(M=4, d=2, alpha=S2, tabs=t16, steptabs=t16[1:2], bs=[1, 2], maxdraws=2),
+        dict(M=8, d=1, alpha=A8full, tabs=t8, steptabs=t8[1:3], bs=[1, 2], maxdraws=2),
+        dict(M=4, d=2, alpha=S2, tabs=t16, steptabs=[], bs=[1, 2], maxdraws=1),
+        dict(M=4, d=2, alpha=S2, tabs=t16[1:2], steptabs=t16[1:2], bs=[1], maxdraws=2),
         dict(M=8, d=2, alpha=S8, tabs=t64, steptabs=[], bs=[2], maxdraws=1),
     ]
 
